@@ -389,7 +389,7 @@ func OracleC04(run *common.Run, id string, res *Result) int {
 // Budget of one harness run.
 type Budget struct {
 	Main, Contention, Twin, CbFail, Mount, Remote, RootPresent, Extended, TwinReach, PlatImage, Cancel int
-	Sched, SchedReps                      int // graphs run under testing/synctest with the PRNG-controlled scheduler, extra schedules per graph
+	Sched, SchedReps, SchedEnum, SchedEnumCap int // graphs run under testing/synctest with the PRNG-controlled scheduler, extra schedules per graph
 	Small                                 bool // small-scope enumeration (graphs <= 3 nodes, sampled 4-node graphs) x roots x closed subsets
 	Reps                           int // extra schedules (latency seeds) per generated case
 }
@@ -407,12 +407,14 @@ func Drive(run *common.Run, prop string, b Budget) {
 	h := sha256.Sum256([]byte(fmt.Sprintf("copyh/%s/%d", prop, run.Seed)))
 	rootRand := common.NewRand(binary.LittleEndian.Uint64(h[:8]))
 	selfTested := map[uint64]bool{}
+	var lastRes *Result
 	one := func(c *Case) {
 		id := run.NewID()
 		if js, err := json.Marshal(c); err == nil {
 			os.WriteFile(currentCasePath(run.Dir), js, 0o644)
 		}
 		res := Execute(c)
+		lastRes = res
 		if res.SetupErr == nil && res.G != nil && !selfTested[c.GenSeed^uint64(len(c.Graph))] {
 			// the generator's edge list must be what content.Successors decodes (ground truth sanity)
 			selfTested[c.GenSeed^uint64(len(c.Graph))] = true
@@ -584,6 +586,7 @@ func Drive(run *common.Run, prop string, b Budget) {
 			}
 		}
 	}
+	_ = lastRes
 	if run.Replay != "" {
 		for _, c := range FromReplay(run.Replay, run.Thorough()) {
 			one(c)
@@ -605,6 +608,43 @@ func Drive(run *common.Run, prop string, b Budget) {
 				one(&c2)
 			}
 		}
+	}
+	// enumeration of controlled schedules on small graphs: depth-first over the choices at every quiescent
+	// point (stateless: each schedule is a fresh run of the case with a longer script)
+	if T != nil && b.SchedEnum > 0 {
+		exhaustive, capped, total := 0, 0, 0
+		for i := 0; i < b.SchedEnum; i++ {
+			base := Generate(rootRand.U64(), "schedenum", run.Thorough())
+			stack := [][]int{{}}
+			n := 0
+			for len(stack) > 0 && n < b.SchedEnumCap {
+				script := stack[len(stack)-1]
+				stack = stack[:len(stack)-1]
+				c := *base
+				c.Script = script
+				one(&c)
+				n++
+				res := lastRes
+				if res == nil || res.Hang {
+					break
+				}
+				for j := len(res.Widths) - 1; j >= len(script); j-- {
+					for a := 1; a < res.Widths[j]; a++ {
+						alt := append(append([]int(nil), res.Taken[:j]...), a)
+						stack = append(stack, alt)
+					}
+				}
+			}
+			total += n
+			if len(stack) == 0 {
+				exhaustive++
+			} else {
+				capped++
+			}
+		}
+		run.Extra["schedule_enumeration_graphs_exhausted"] = exhaustive
+		run.Extra["schedule_enumeration_graphs_capped"] = capped
+		run.Extra["schedule_enumeration_runs"] = total
 	}
 	stream("main", b.Main)
 	stream("contention", b.Contention)
